@@ -6,7 +6,7 @@ from .common import fn_table, gen_tape
 PROP = "C08"
 JUDGE = ("C08.",)
 PROGRAMS = ["forms"]
-RUNS = {"quick": 1500, "thorough": 60000}
+RUNS = {"quick": 4000, "thorough": 60000}
 RULE = ("seeded thread schedules (random / PCT / targeted pre-emption inside the tooling and call-entry code); "
         "a run is non-trivial if it delivered an event; distinct = distinct pairs of code locations adjacent "
         "across a context switch")
